@@ -9,6 +9,7 @@ from sa.rules import synth_rules as SY
 from sa.rules import maybe_rules as MB
 from sa.rules import window_rules as WN
 from sa.rules import cpp_rules as CC
+from sa.rules import traversal as TV
 
 
 def main(tier):
@@ -45,6 +46,7 @@ def main(tier):
     chk.run("R-OKCOVER", B.okcover, r, floor=3)
     chk.run("R-RTSYMS", C.rtsyms, r, cx.cpp, cx.templates, floor=10)
     chk.run("R-SYNTH", SY.synth, r, floor=12)
+    chk.run("R-INCIDENTAL-PURE", TV.incidental_pure, r, cx.schema, cx.sites, floor=8)
     chk.run("R-INTERMEDIATE", RG.intermediate, r, floor=2)
     chk.run("R-RENDERCONST", RG.renderconst, r, floor=30)
     chk.run("R-INTRANGE", RG.intrange, r, parts=('backend',), floor=4)
